@@ -242,6 +242,10 @@ func (r *runner) record(kind byte, gen int, mod string, probe bool) *event {
 					r.linger[a-nTCP] = true
 				}
 				ev.ans[a] = ans
+			case isUnix(a) && ev.win && !contains(ev.hold[a], r.staying()):
+				// every listener on this socket belongs to the config that is being stopped: if
+				// it is closed before we connect we land on the lingering socket; do not wait long
+				ev.ans[a], _, _ = r.env.get(a, "/id", 2*deadTimeout)
 			default:
 				ev.ans[a], _, _ = r.env.get(a, "/id", probeTimeout)
 			}
@@ -260,6 +264,26 @@ func (r *runner) closeWindow() {
 	if r.epoch.Load()%2 == 1 {
 		r.epoch.Add(1)
 	}
+}
+
+func contains(xs []int, x int) bool {
+	for _, y := range xs {
+		if y == x {
+			return true
+		}
+	}
+	return false
+}
+
+// staying is the generation whose listeners are not being closed in the current window.
+func (r *runner) staying() int {
+	switch {
+	case r.loading >= len(r.sc.cfgs):
+		return -1
+	case r.swapped:
+		return r.loading
+	}
+	return r.curGen
 }
 
 func (r *runner) mark(kind byte, k int) {
